@@ -412,29 +412,418 @@ theorem list_graph_ttl (s : State) (now req : Nat) (p : Pattern) :
     (s.list now req p).1.graph = (s.cleanup now).graph ∧ (s.list now req p).1.ttl = (s.cleanup now).ttl :=
   ⟨rfl, rfl⟩
 
-theorem step_inv {s : State} (h : TI s.graph s.ttl) (t : Nat) (op : Op) :
-    TI (step s t op).1.graph (step s t op).1.ttl := by
-  cases op with
-  | set req sec val size => exact set_inv h t req sec val size
-  | get req sec => exact get_inv h t req sec
-  | list req p => simp only [step]; rw [(list_graph_ttl s t req p).1, (list_graph_ttl s t req p).2]; exact (h.cleanup t).1
-  | rotate req sec val size => exact rotate_inv h t req sec val size
-  | delete req sec => exact delete_inv h t req sec
-  | grant req ent sec l => exact grant_inv h t req ent sec l
-  | grantTtl req ent sec l ttl => exact grantTtl_inv h t req ent sec l ttl
-  | revoke req ent sec => exact revoke_inv h t req ent sec
-  | delegate p c secs l ttl => exact delegate_inv h t p c secs l ttl
-  | undelegate p c => exact undelegate_inv h p c
-  | addMember a b => exact addMember_inv h a b
-  | delMember a b => exact delMember_inv h a b
+/-! ### the added operations -/
 
-theorem run_inv : ∀ (h : List (Nat × Op)) (s : State), TI s.graph s.ttl → TI (run s h).graph (run s h).ttl
+theorem addEdge_inv {s : State} (h : TI s.graph s.ttl) (a b : Nat) (k : EKind) :
+    TI (s.addEdge a b k).1.graph (s.addEdge a b k).1.ttl := by
+  unfold State.addEdge
+  exact h.append _ rfl
+
+theorem getVersion_inv {s : State} (h : TI s.graph s.ttl) (now req sec ver : Nat) :
+    TI (s.getVersion now req sec ver).1.graph (s.getVersion now req sec ver).1.ttl := by
+  unfold State.getVersion
+  refine guarded_ti h (fun s' hs' => ?_)
+  split
+  · exact hs'
+  · split <;> exact hs'
+
+theorem versionCount_inv {s : State} (h : TI s.graph s.ttl) (now req sec : Nat) :
+    TI (s.versionCount now req sec).1.graph (s.versionCount now req sec).1.ttl := by
+  unfold State.versionCount
+  refine guarded_ti h (fun s' hs' => ?_)
+  split <;> exact hs'
+
+theorem rollback_inv {s : State} (h : TI s.graph s.ttl) (now req sec ver : Nat) :
+    TI (s.rollback now req sec ver).1.graph (s.rollback now req sec ver).1.ttl := by
+  unfold State.rollback
+  refine guarded_ti h (fun s' hs' => ?_)
+  split
+  · exact hs'
+  · split
+    · exact hs'
+    · exact set_inv hs' _ _ _ _ _
+
+theorem batchGet_inv {s : State} (h : TI s.graph s.ttl) (now req : Nat) (secs : List Nat) :
+    TI (s.batchGet now req secs).1.graph (s.batchGet now req secs).1.ttl := by
+  unfold State.batchGet
+  simp only [audit_graph, audit_ttl]
+  exact (h.cleanup now).1
+
+/-- an invariant kept by `set` is kept by the fold of `batch_set_detailed` -/
+theorem batchSet_fold_inv (P : State → Prop) (now req : Nat)
+    (hset : ∀ (s : State) sec val size, P s → P (s.set now req sec val size).1) :
+    ∀ (entries : List (Nat × Nat × Nat)) (acc : State × List Item), P acc.1 →
+      P (entries.foldl (fun (acc : State × List Item) en =>
+        ((acc.1.set now req en.1 en.2.1 en.2.2).1, acc.2 ++ [respItem (acc.1.set now req en.1 en.2.1 en.2.2).2])) acc).1
+  | [], _, h => h
+  | en :: rest, acc, h => by
+    rw [List.foldl_cons]
+    exact batchSet_fold_inv P now req hset rest _ (hset _ _ _ _ h)
+
+theorem batchSet_inv {s : State} (h : TI s.graph s.ttl) (now req : Nat) (entries : List (Nat × Nat × Nat)) :
+    TI (s.batchSet now req entries).1.graph (s.batchSet now req entries).1.ttl := by
+  unfold State.batchSet
+  split
+  · exact h
+  · simp only [audit_graph, audit_ttl]
+    exact batchSet_fold_inv (fun s => TI s.graph s.ttl) now req (fun s sec val size hs => set_inv hs now req sec val size)
+      entries (s, []) h
+
+theorem wrap_inv {s : State} (h : TI s.graph s.ttl) (now req sec : Nat) :
+    TI (s.wrap now req sec).1.graph (s.wrap now req sec).1.ttl := by
+  unfold State.wrap
+  refine guarded_ti h (fun s' hs' => ?_)
+  have hg := get_inv hs' now req sec
+  generalize s'.get now req sec = r at hg
+  obtain ⟨s'', resp⟩ := r
+  cases resp <;> exact hg
+
+theorem unwrap_inv {s : State} (h : TI s.graph s.ttl) (token : Nat) :
+    TI (s.unwrap token).1.graph (s.unwrap token).1.ttl := by
+  unfold State.unwrap
+  split <;> exact h
+
+theorem dropRecord_inv {s : State} (h : TI s.graph s.ttl) (d : DelegRec) :
+    TI (s.dropRecord d).graph (s.dropRecord d).ttl := by
+  unfold State.dropRecord
+  exact foldl_inv _ (fun st : State => TI st.graph st.ttl) d.secrets
+    (fun st sec _ hst => (TI.drop hst d.child sec).1) _ h
+
+theorem undelegateCascade_inv {s : State} (h : TI s.graph s.ttl) (parent child : Nat) :
+    TI (s.undelegateCascade parent child).1.graph (s.undelegateCascade parent child).1.ttl := by
+  unfold State.undelegateCascade
+  simp only [persistTtl_graph, persistTtl_ttl, persistDelegs_graph, persistDelegs_ttl]
+  exact foldl_inv State.dropRecord (fun st : State => TI st.graph st.ttl) _
+    (fun st d _ hst => dropRecord_inv hst d) _ h
+
+/-! ### batch calls: every entry is decided on the same graph (the one left by `cleanup_expired_grants` at the call's instant) -/
+
+/-- same access-relevant part: graph, tracker, policy -/
+def Same (a b : State) : Prop := a.graph = b.graph ∧ a.ttl = b.ttl ∧ a.pol = b.pol
+
+theorem Same.refl (a : State) : Same a a := ⟨rfl, rfl, rfl⟩
+theorem Same.trans {a b c : State} (h1 : Same a b) (h2 : Same b c) : Same a c :=
+  ⟨h1.1.trans h2.1, h1.2.1.trans h2.2.1, h1.2.2.trans h2.2.2⟩
+
+theorem Same.cleanup {a b : State} (h : Same a b) (now : Nat) : Same (a.cleanup now) (b.cleanup now) := by
+  refine ⟨?_, ?_, ?_⟩
+  · rw [cleanup_graph, cleanup_graph, h.1, h.2.1]
+  · rw [cleanup_ttl, cleanup_ttl, h.2.1]
+  · rw [cleanup_pol, cleanup_pol, h.2.2]
+
+theorem Justified.same {a b : State} {req sec : Nat} {need : Level} {P : Edge → Prop}
+    (h : Justified a req sec need P) (hs : Same a b) : Justified b req sec need P :=
+  h.mono hs.2.2 (fun _ he => hs.1 ▸ he)
+
+/-- `set` by a non-root requester leaves the access-relevant part as it was or as `cleanup` at that instant left it -/
+theorem set_same {s : State} {now req sec val size : Nat} (hr : req ≠ root) :
+    Same (s.set now req sec val size).1 s ∨ Same (s.set now req sec val size).1 (s.cleanup now) := by
+  unfold State.set
+  split
+  · exact Or.inl (Same.refl _)
+  · split
+    · right
+      rcases guarded_cases s now req sec .write _ with ⟨e, h⟩ | ⟨_, h⟩
+      · rw [h, checkAccess_fst, if_neg hr]; exact Same.refl _
+      · rw [h, checkAccess_fst, if_neg hr]; exact ⟨rfl, rfl, rfl⟩
+    · exact Or.inl (Same.refl _)
+
+theorem set_cleanup_same {s : State} {now req sec val size : Nat} (hr : req ≠ root) :
+    Same ((s.set now req sec val size).1.cleanup now) (s.cleanup now) := by
+  rcases set_same (s := s) (now := now) (sec := sec) (val := val) (size := size) hr with h | h
+  · exact h.cleanup now
+  · have := h.cleanup now
+    rwa [cleanup_cleanup] at this
+
+/-- the per-entry outcomes of `batch_set_detailed`, entry by entry -/
+def batchItems (now req : Nat) : State → List (Nat × Nat × Nat) → List Item
+  | _, [] => []
+  | s, en :: rest =>
+    respItem (s.set now req en.1 en.2.1 en.2.2).2 :: batchItems now req (s.set now req en.1 en.2.1 en.2.2).1 rest
+
+theorem batchSet_fold_items (now req : Nat) :
+    ∀ (entries : List (Nat × Nat × Nat)) (s : State) (pre : List Item),
+      (entries.foldl (fun (acc : State × List Item) en =>
+        ((acc.1.set now req en.1 en.2.1 en.2.2).1, acc.2 ++ [respItem (acc.1.set now req en.1 en.2.1 en.2.2).2])) (s, pre)).2 =
+        pre ++ batchItems now req s entries
+  | [], _, pre => by simp [batchItems]
+  | en :: rest, s, pre => by
+    rw [List.foldl_cons, batchSet_fold_items now req rest, batchItems]
+    simp
+
+theorem respItem_done {r : Resp} (h : respItem r = .done) : r.isOk = true := by
+  cases r <;> first | rfl | cases h
+
+theorem batchItems_justified {s0 : State} {now req : Nat} (hr : req ≠ root) :
+    ∀ (entries : List (Nat × Nat × Nat)) (s : State), Same (s.cleanup now) (s0.cleanup now) →
+      ∀ p ∈ entries.zip (batchItems now req s entries), p.2 = .done →
+        Justified (s0.cleanup now) req p.1.1 .write (fun _ => True)
+  | [], _, _, p, hp, _ => by simp [batchItems] at hp
+  | en :: rest, s, hs, p, hp, hd => by
+    rw [batchItems, List.zip_cons_cons] at hp
+    rcases List.mem_cons.mp hp with rfl | hp
+    · exact (set_ok (respItem_done hd) hr).same hs
+    · exact batchItems_justified hr rest _ ((set_cleanup_same hr).trans hs) p hp hd
+
+theorem mem_zip_map {α β : Type} (f : α → β) : ∀ (l : List α) (p : α × β), p ∈ l.zip (l.map f) → p.2 = f p.1
+  | [], _, h => by simp at h
+  | a :: l, p, h => by
+    rw [List.map_cons, List.zip_cons_cons] at h
+    rcases List.mem_cons.mp h with rfl | h
+    · rfl
+    · exact mem_zip_map f l p h
+
+/-! ### the persisted copy of the tracker covers the tracker (so a re-opened vault still knows every expiry) -/
+
+/-- every tracker entry is also in the persisted copy (`_vault_ttl_grants`) -/
+def SubP (s : State) : Prop := ∀ t ∈ s.ttl, t ∈ s.pttl
+
+@[simp] theorem audit_pttl (s : State) (req sec : Nat) (op : String) (extra : List Plain) :
+    (s.audit req sec op extra).pttl = s.pttl := rfl
+@[simp] theorem putSecret_pttl (s : State) (m : SecretMeta) : (s.putSecret m).pttl = s.pttl := rfl
+@[simp] theorem addAccess_pttl (s : State) (ent sec : Nat) (l : Level) (x : Option Nat) :
+    (s.addAccess ent sec l x).pttl = s.pttl := rfl
+@[simp] theorem persistDelegs_pttl (s : State) : s.persistDelegs.pttl = s.pttl := rfl
+@[simp] theorem persistTtl_pttl (s : State) : s.persistTtl.pttl = s.ttl := by
+  unfold State.persistTtl; split <;> rfl
+
+theorem SubP.persist (s : State) : SubP s.persistTtl := by
+  intro t ht
+  rw [persistTtl_pttl]
+  rwa [persistTtl_ttl] at ht
+
+/-- same persisted copy, smaller (or equal) tracker -/
+theorem SubP.shrink {s s' : State} (h : SubP s) (ht : ∀ t ∈ s'.ttl, t ∈ s.ttl) (hp : s'.pttl = s.pttl) : SubP s' :=
+  fun t h' => hp ▸ h t (ht t h')
+
+theorem cleanup_subp {s : State} (h : SubP s) (now : Nat) : SubP (s.cleanup now) := by
+  unfold State.cleanup
+  simp only
+  split
+  · exact SubP.persist _
+  · exact h.shrink (fun t ht => (List.mem_filter.mp ht).1) rfl
+
+theorem guarded_subp {s : State} (h : SubP s) {now req sec : Nat} {need : Level} {k : State → State × Resp}
+    (hk : ∀ s' : State, SubP s' → SubP (k s').1) : SubP (s.guarded now req sec need k).1 :=
+  guarded_inv SubP h (cleanup_subp h now) hk
+
+theorem set_subp {s : State} (h : SubP s) (now req sec val size : Nat) : SubP (s.set now req sec val size).1 := by
+  unfold State.set
+  split
+  · exact h
+  · split
+    · exact guarded_subp h (fun s' hs' => hs'.shrink (fun _ ht => ht) rfl)
+    · split
+      · exact h
+      · exact h.shrink (fun _ ht => ht) rfl
+
+theorem get_subp {s : State} (h : SubP s) (now req sec : Nat) : SubP (s.get now req sec).1 := by
+  unfold State.get
+  refine guarded_subp (cleanup_subp h now) (fun s' hs' => ?_)
+  split
+  · exact hs'
+  · exact hs'.shrink (fun _ ht => ht) rfl
+
+theorem list_subp {s : State} (h : SubP s) (now req : Nat) (p : Pattern) : SubP (s.list now req p).1 := by
+  unfold State.list
+  exact (cleanup_subp h now).shrink (fun _ ht => ht) rfl
+
+theorem rotate_subp {s : State} (h : SubP s) (now req sec val size : Nat) :
+    SubP (s.rotate now req sec val size).1 := by
+  unfold State.rotate
+  refine guarded_subp h (fun s' hs' => ?_)
+  split
+  · exact hs'
+  · split
+    · exact hs'
+    · exact hs'.shrink (fun _ ht => ht) rfl
+
+theorem delete_subp {s : State} (h : SubP s) (now req sec : Nat) : SubP (s.delete now req sec).1 := by
+  unfold State.delete
+  refine guarded_subp h (fun s' hs' => ?_)
+  split
+  · exact hs'
+  · intro t ht
+    simp only [audit_ttl, audit_pttl, persistTtl_ttl, persistTtl_pttl] at ht ⊢
+    exact ht
+
+theorem grantCore_subp {s : State} (h : SubP s) (now req ent sec : Nat) (l : Level) (x : Option Nat) :
+    SubP (s.grantCore now req ent sec l x).1 := by
+  unfold State.grantCore
+  refine guarded_subp h (fun s' hs' => ?_)
+  split
+  · exact hs'
+  · exact hs'.shrink (fun _ ht => ht) rfl
+
+theorem grantTtl_subp {s : State} (h : SubP s) (now req ent sec : Nat) (l : Level) (ttl : Nat) :
+    SubP (s.grantTtl now req ent sec l ttl).1 := by
+  have hg := grantCore_subp h now req ent sec l (some (now + ttl))
+  unfold State.grantTtl
+  split
+  · rename_i s' e heq; rw [heq] at hg; exact hg
+  · exact SubP.persist _
+
+theorem revoke_subp {s : State} (h : SubP s) (now req ent sec : Nat) : SubP (s.revoke now req ent sec).1 := by
+  unfold State.revoke
+  refine guarded_subp h (fun s' hs' => ?_)
+  simp only
+  split
+  · exact (SubP.persist _).shrink (fun _ ht => ht) rfl
+  · exact hs'.shrink (fun _ ht => ht) rfl
+
+theorem foldl_addAccess_pttl {child : Nat} {eff : Level} {exp : Option Nat} :
+    ∀ (secs : List Nat) (s0 : State), (secs.foldl (fun st sec => st.addAccess child sec eff exp) s0).pttl = s0.pttl
+  | [], _ => rfl
+  | sec :: rest, s0 => by rw [List.foldl_cons, foldl_addAccess_pttl rest]; rfl
+
+theorem foldl_audit_pttl (parent child : Nat) (op : String) :
+    ∀ (l : List Nat) (s0 : State), (l.foldl (fun st sec => st.audit parent sec op [.ident child]) s0).pttl = s0.pttl
+  | [], _ => rfl
+  | x :: l, s0 => by rw [List.foldl_cons, foldl_audit_pttl parent child op l]; rfl
+
+theorem delegateApply_subp {s : State} (h : SubP s) (now parent child : Nat) (secs : List Nat) (eff : Level)
+    (ttl : Option Nat) : SubP (s.delegateApply now parent child secs eff ttl).1 := by
+  cases ttl with
+  | none =>
+    unfold State.delegateApply
+    split
+    · exact h
+    · split
+      · exact h
+      · simp only
+        split
+        · exact h
+        · intro t ht
+          simp only [foldl_audit_ttl, foldl_audit_pttl, persistDelegs_ttl, persistDelegs_pttl,
+            (foldl_addAccess secs _).1, foldl_addAccess_pttl] at ht ⊢
+          exact h t ht
+  | some tt =>
+    unfold State.delegateApply
+    split
+    · exact h
+    · split
+      · exact h
+      · simp only
+        split
+        · exact h
+        · intro t ht
+          simp only [foldl_audit_ttl, foldl_audit_pttl, persistDelegs_ttl, persistDelegs_pttl, persistTtl_ttl,
+            persistTtl_pttl] at ht ⊢
+          exact ht
+
+theorem delegate_subp {s : State} (h : SubP s) (now parent child : Nat) (secs : List Nat) (l : Level)
+    (ttl : Option Nat) : SubP (s.delegate now parent child secs l ttl).1 := by
+  have h0 : SubP (if parent = root || secs.isEmpty then s else s.cleanup now) := by
+    split
+    · exact h
+    · exact cleanup_subp h now
+  unfold State.delegate
+  simp only
+  split
+  · exact h0
+  · exact delegateApply_subp h0 _ _ _ _ _ _
+
+theorem undelegate_subp {s : State} (h : SubP s) (parent child : Nat) : SubP (s.undelegate parent child).1 := by
+  unfold State.undelegate
+  split
+  · exact h
+  · intro t ht
+    simp only [foldl_audit_ttl, foldl_audit_pttl, persistTtl_ttl, persistTtl_pttl] at ht ⊢
+    exact ht
+
+theorem undelegateCascade_subp (s : State) (parent child : Nat) : SubP (s.undelegateCascade parent child).1 := by
+  unfold State.undelegateCascade
+  exact SubP.persist _
+
+theorem wrap_subp {s : State} (h : SubP s) (now req sec : Nat) : SubP (s.wrap now req sec).1 := by
+  unfold State.wrap
+  refine guarded_subp h (fun s' hs' => ?_)
+  have hg := get_subp hs' now req sec
+  generalize s'.get now req sec = r at hg
+  obtain ⟨s'', resp⟩ := r
+  cases resp <;> first | exact hg | exact hg.shrink (fun _ ht => ht) rfl
+
+/-- re-opening: the tracker is replaced by its persisted copy (a superset), then expired grants are dropped -/
+theorem reopen_inv {s : State} (h : TI s.graph s.ttl) (hp : SubP s) (now : Nat) :
+    TI (s.reopen now).1.graph (s.reopen now).1.ttl ∧ SubP (s.reopen now).1 := by
+  unfold State.reopen
+  have h1 : TI ({ s with ttl := s.pttl, delegs := s.pdelegs } : State).graph
+      ({ s with ttl := s.pttl, delegs := s.pdelegs } : State).ttl :=
+    h.mono (fun _ he => he) (fun _ _ t ht _ _ _ => hp t ht)
+  have h2 : SubP ({ s with ttl := s.pttl, delegs := s.pdelegs } : State) := fun _ ht => ht
+  exact ⟨(h1.cleanup now).1, cleanup_subp h2 now⟩
+
+/-- the history invariant: every edge issued with an expiry keeps its tracker entry, and every tracker entry is
+    also in the persisted copy -/
+def HI (s : State) : Prop := TI s.graph s.ttl ∧ SubP s
+
+theorem step_inv {s : State} (h : HI s) (t : Nat) (op : Op) : HI (step s t op).1 := by
+  obtain ⟨h, hp⟩ := h
+  cases op with
+  | set req sec val size => exact ⟨set_inv h t req sec val size, set_subp hp t req sec val size⟩
+  | get req sec => exact ⟨get_inv h t req sec, get_subp hp t req sec⟩
+  | list req p =>
+    refine ⟨?_, list_subp hp t req p⟩
+    simp only [step]; rw [(list_graph_ttl s t req p).1, (list_graph_ttl s t req p).2]; exact (h.cleanup t).1
+  | rotate req sec val size => exact ⟨rotate_inv h t req sec val size, rotate_subp hp t req sec val size⟩
+  | delete req sec => exact ⟨delete_inv h t req sec, delete_subp hp t req sec⟩
+  | grant req ent sec l => exact ⟨grant_inv h t req ent sec l, grantCore_subp hp t req ent sec l none⟩
+  | grantTtl req ent sec l ttl => exact ⟨grantTtl_inv h t req ent sec l ttl, grantTtl_subp hp t req ent sec l ttl⟩
+  | revoke req ent sec => exact ⟨revoke_inv h t req ent sec, revoke_subp hp t req ent sec⟩
+  | delegate p c secs l ttl => exact ⟨delegate_inv h t p c secs l ttl, delegate_subp hp t p c secs l ttl⟩
+  | undelegate p c => exact ⟨undelegate_inv h p c, undelegate_subp hp p c⟩
+  | addMember a b => exact ⟨addMember_inv h a b, hp.shrink (fun _ ht => ht) rfl⟩
+  | delMember a b => exact ⟨delMember_inv h a b, hp.shrink (fun _ ht => ht) rfl⟩
+  | addEdge a b k => exact ⟨addEdge_inv h a b k, hp.shrink (fun _ ht => ht) rfl⟩
+  | getVersion req sec ver =>
+    refine ⟨getVersion_inv h t req sec ver, ?_⟩
+    simp only [step]; unfold State.getVersion
+    refine guarded_subp hp (fun s' hs' => ?_)
+    split
+    · exact hs'
+    · split <;> exact hs'
+  | versions req sec =>
+    refine ⟨versionCount_inv h t req sec, ?_⟩
+    simp only [step]; unfold State.versionCount
+    refine guarded_subp hp (fun s' hs' => ?_)
+    split <;> exact hs'
+  | rollback req sec ver =>
+    refine ⟨rollback_inv h t req sec ver, ?_⟩
+    simp only [step]; unfold State.rollback
+    refine guarded_subp hp (fun s' hs' => ?_)
+    split
+    · exact hs'
+    · split
+      · exact hs'
+      · exact set_subp hs' _ _ _ _ _
+  | batchGet req secs =>
+    refine ⟨batchGet_inv h t req secs, ?_⟩
+    simp only [step]; unfold State.batchGet
+    exact (cleanup_subp hp t).shrink (fun _ ht => ht) rfl
+  | batchSet req entries =>
+    refine ⟨batchSet_inv h t req entries, ?_⟩
+    simp only [step]; unfold State.batchSet
+    split
+    · exact hp
+    · exact (batchSet_fold_inv SubP t req (fun s sec val size hs => set_subp hs t req sec val size)
+        entries (s, []) hp).shrink (fun _ ht => ht) rfl
+  | wrap req sec => exact ⟨wrap_inv h t req sec, wrap_subp hp t req sec⟩
+  | unwrap token =>
+    refine ⟨unwrap_inv h token, ?_⟩
+    simp only [step]; unfold State.unwrap
+    split
+    · exact hp
+    · exact hp.shrink (fun _ ht => ht) rfl
+  | undelegateCascade p c => exact ⟨undelegateCascade_inv h p c, undelegateCascade_subp s p c⟩
+  | reopen => exact reopen_inv h hp t
+
+theorem run_inv : ∀ (h : List (Nat × Op)) (s : State), HI s → HI (run s h)
   | [], _, hs => hs
   | (t, op) :: rest, s, hs => by
     rw [run]
     exact run_inv rest _ (step_inv hs t op)
 
-theorem init_inv (pol : Policy) (a b c : Nat) : TI (init pol a b c).graph (init pol a b c).ttl := by
-  intro e he; cases he
+theorem init_inv (pol : Policy) (a b c : Nat) : HI (init pol a b c) :=
+  ⟨fun _ he => (nomatch he), fun _ ht => (nomatch ht)⟩
 
 end Neumann.Vault
